@@ -112,6 +112,58 @@ pub fn all() -> Vec<History> {
         Act::Take { src: Src::R(2), dst: Dst::G(0) }, Act::WDrop { dst: WLoc::WR(0) }, Act::CDrop { c: 0 },
         drop_r(0), drop_r(1), Act::CollectQuiet,
     ]));
+    // a pass whose garbage mixes already-finalized (resurrected earlier) and never-finalized objects
+    v.push(("mixed_finalized_and_fresh_garbage", vec![
+        new_spec(0, vec![Act::Clone { src: Src::MeT(0), dst: Dst::G(0) }], vec![]), new(1), set(0, 0, 1), set(1, 0, 0), drop_r(0), drop_r(1), Act::CollectQuiet,
+        new(2), Act::Clone { src: Src::G(0), dst: Dst::R(1) }, Act::Clone { src: Src::R(2), dst: Dst::Slot(Own::R(1), false, 1) }, Act::Clone { src: Src::R(1), dst: Dst::Slot(Own::R(2), false, 0) },
+        Act::Drop { dst: Dst::G(0) }, drop_r(1), drop_r(2), Act::Query, Act::CollectQuiet,
+    ]));
+    // finalizer under a plain drop runs a collection and then allocates: the new object is born finalized
+    v.push(("rc_finalizer_collects_then_allocates", vec![
+        new(1), set(1, 0, 1), drop_r(1),
+        new_spec(0, vec![Act::Collect, Act::New { dst: Dst::G(0), spec: Box::new(Spec::default()) }], vec![]), drop_r(0), Act::Query, Act::Drop { dst: Dst::G(0) }, Act::CollectQuiet,
+    ]));
+    // buffered object whose destructor starts a collection when its last Cc goes
+    v.push(("buffered_last_drop_destructor_collects", vec![
+        new_spec(0, vec![], vec![DAct::Collect, DAct::Query]), clone_r(0, 1), drop_r(1), new(2), set(2, 0, 2), drop_r(2), drop_r(0), Act::Query, Act::CollectQuiet,
+    ]));
+    // ... and whose cleaning action starts a collection / allocates under automatic collection
+    v.push(("buffered_last_drop_action_collects", vec![
+        Act::Config { auto: true, percent: 2, buffered: 1 },
+        new(0), Act::Register { own: Own::R(0), action: act(None, None, vec![Act::Collect, Act::New { dst: Dst::G(0), spec: Box::new(Spec::default()) }]), dst: 0 }, Act::Clean { c: 1 },
+        clone_r(0, 1), drop_r(1), new(2), set(2, 0, 2), drop_r(2), Act::CDrop { c: 0 }, drop_r(0), Act::Query, Act::Drop { dst: Dst::G(0) }, Act::CollectQuiet,
+    ]));
+    // unique buffered object in a global; a finalizer running under a plain drop tries to unwrap it (refused)
+    v.push(("refused_try_unwrap_in_rc_finalizer", vec![
+        new(1), clone_r(1, 2), drop_r(2), Act::Take { src: Src::R(1), dst: Dst::G(0) },
+        new_spec(0, vec![Act::TryUnwrap { reg: Dst::G(0) }, Act::FinalizeAgain { reg: Dst::G(0) }], vec![]), drop_r(0), Act::Query, Act::TryUnwrap { reg: Dst::G(0) },
+    ]));
+    // finalizer inside a collection calls new_cyclic / Cc::new while an automatic collection would be due
+    v.push(("creation_in_collector_finalizer_auto_due", vec![
+        Act::Config { auto: true, percent: 2, buffered: 1 },
+        new(3), new(4), clone_r(3, 2), drop_r(2), clone_r(4, 2), drop_r(2),
+        new_spec(0, vec![Act::NewCyclic { dst: Dst::G(0), spec: Box::new(Spec::default()), script: vec![], keep: 1 }, Act::New { dst: Dst::G(1), spec: Box::new(Spec::default()) }], vec![]),
+        set(0, 0, 0), drop_r(0), Act::Collect, Act::Query, Act::Drop { dst: Dst::G(0) }, Act::Drop { dst: Dst::G(1) }, Act::CollectQuiet,
+    ]));
+    // side record with no Weak left, then try_unwrap
+    v.push(("try_unwrap_side_record_no_weak", vec![new(0), Act::Downgrade { src: Src::R(0), dst: WLoc::WR(0) }, Act::WDrop { dst: WLoc::WR(0) }, Act::TryUnwrap { reg: Dst::R(0) }, new(1), Act::Query]));
+    v.push(("try_unwrap_new_cyclic_no_weak", vec![Act::NewCyclic { dst: Dst::R(0), spec: Box::new(Spec::default()), script: vec![], keep: 0 }, Act::TryUnwrap { reg: Dst::R(0) }, new(1), Act::Query]));
+    // collection requested from a cleaning action under a plain drop with garbage buffered
+    v.push(("collect_in_rc_action", vec![
+        new(1), new(2), set(1, 0, 2), set(2, 0, 1), drop_r(1), drop_r(2),
+        new(0), Act::Register { own: Own::R(0), action: act(None, None, vec![Act::Collect]), dst: 0 }, drop_r(0), Act::Query, Act::CollectQuiet,
+    ]));
+    // two buffered roots and a shared child (what an unwound root phase leaves behind is exercised by fault injection)
+    v.push(("two_roots_shared_child", vec![
+        new(0), new(1), new(2), set(0, 0, 2), set(1, 0, 2), drop_r(2), clone_r(0, 3), drop_r(3), clone_r(1, 3), drop_r(3), Act::Collect,
+        new(3), Act::Take { src: Src::R(1), dst: Dst::Slot(Own::R(3), false, 0) }, clone_r(3, 4), drop_r(4), clone_r(0, 4), drop_r(4), Act::Collect, Act::Query, drop_r(0), drop_r(3), Act::CollectQuiet,
+    ]));
+    // upgrade from a destructor-side cleaning action to a peer of the same dying ring, result kept
+    v.push(("upgrade_peer_in_action_during_collection", vec![
+        new(0), new(1), set(0, 0, 1), set(1, 0, 0), Act::Downgrade { src: Src::R(1), dst: WLoc::WR(0) },
+        Act::Register { own: Own::R(0), action: act(None, Some(WLoc::WR(0)), vec![Act::Upgrade { src: WLoc::Cap, dst: Dst::G(0) }]), dst: 0 },
+        Act::WDrop { dst: WLoc::WR(0) }, Act::CDrop { c: 0 }, drop_r(0), drop_r(1), Act::CollectQuiet, Act::Query, Act::Drop { dst: Dst::G(0) }, Act::CollectQuiet,
+    ]));
     // auto collection triggered inside Cc::new with callbacks
     v.push(("auto_collect_in_new", vec![
         Act::Config { auto: true, percent: 2, buffered: 1 },
